@@ -89,6 +89,45 @@ CHECKS = {
         note='Trusted: z3 EUF; decoder/LM determinism (C02/C03, torch in eval mode); a worker process is modelled as an object with '
              'some history; GPU nondeterminism and random numbers in layout helpers are outside.',
         design='4/C08'),
+    'C02': dict(
+        text='Bounded symbolic execution of the real CTCPrefixLogRawNumpyDecoder (and helpers, top_k, BagOfHypotheses) on a T x C '
+             'matrix in the LogP domain: each log-probability is its probability p > 0 (rows sum to 1, optionally exact zeros), so '
+             'every score is a polynomial in p.  np.argpartition is a nondeterministic stub returning ANY k-subset whose scores '
+             'are >= all dropped ones (every tie-break), the ranking constraints joining the path condition.  On every path: '
+             'transcripts pairwise distinct; each score <= the sum over all C^T alignments collapsing to it (ref - score expands '
+             'to non-negative coefficients in z3\'s sum-of-monomials normal form, else an nlsat query); after every frame the beam '
+             'is a set of k best prefixes of an independent reference prefix beam search with identical score polynomials; '
+             'unpruned (k unbounded, non-pruning selector) every non-zero transcript is returned with exactly its CTC probability; '
+             'a matrix is rejected iff a row sum is off by more than 1e-5.  Bound: T <= 3, C = 3, k in {1,2,3,unbounded} (quick); '
+             'T = 4 / C = 4 (thorough).',
+        note='Trusted: z3 (simplifier normal form + nlsat), the symnp/LogP facade (guided concolic witness runs replayed on the real '
+             'decoder), exact reals for floats; e^-10 of the default selector is a symbolic constant within 2^-40 of its value; the '
+             'order of the returned bag (BagOfHypotheses.sort) is not claimed.',
+        design='4/C02'),
+    'C03': dict(
+        text='Same engine as C02 with a language model attached: the LM is a stub with the LMWrapper interface whose state is the '
+             'prefix and whose score for (prefix, character) and end-of-line is a free real variable (any history-dependent LM); '
+             'lm_scale in [0,3] and the insertion bonus are symbolic (scale * score is a named product with a lazy definition).  '
+             'On every path (every admissible top-k and arg-max choice): the LM score of each returned hypothesis equals the sum of '
+             'the model\'s own per-character scores along the transcript plus bonus per character plus end-of-line score; the '
+             'returned LM state is that of a hypothesis maximising visual + scale x LM; with scale 0 the ranking terms contain no LM '
+             'variable.  BagOfHypotheses.best_hyp is an arg-max of total_scores for symbolic scores and weight.  Bound: T <= 2 '
+             '(3 for k = 2), C = 3, k <= 3 (quick); T = 3, k <= 3 and C = 4 (thorough).',
+        note='Trusted: as C02; exp(scale * lm) in the ranking is an uninterpreted positive increasing function (the bookkeeping claims '
+             'hold for any selection, so this cannot cause a false alarm); the torch LMWrapper is outside.',
+        design='4/C03'),
+    'C09': dict(
+        text='Bounded symbolic execution of the real _gen_logits / save_logits / save_logits_bytes / load_logits on a saver and a '
+             'loader layout whose line ids are symbolic (every equality pattern between the two: subset, superset, disjoint), '
+             'with provenance tokens as logits / characters / frame windows and symbolic presence of each component; z3 decides per '
+             'path and loader line that it carries exactly the three components saved under its id, or is untouched when its id is '
+             'not in the file; missing components are refused in the default mode; legacy files load; dense reconstruction '
+             '(get_dense_logits / get_full_logprobs / prepare_dense_logits) returns stored weights unchanged, the floor for pruned '
+             'entries, rows summing to 1 and keeps within-frame ratios (LogP domain, every prune pattern of a 2 x 3 matrix).  '
+             'Bound: 0..2 lines per layout (quick), 0..3 (thorough).',
+        note='Trusted: z3; pickle = deep copy and open() = in-memory file (stubs); scipy.sparse contract (entries != 0 are stored). '
+             'Known finding: ids equal to the reserved keys line_characters / logit_coords.',
+        design='4/C09'),
 }
 
 NOT_APPLICABLE = {
